@@ -7,6 +7,7 @@ import (
 	"encoding/json"
 	"fmt"
 	"os"
+	"os/exec"
 	"path/filepath"
 	"sort"
 
@@ -39,6 +40,8 @@ type H struct {
 	ran     map[string]int
 	toCoq   int
 	verbose bool
+	trace   string // when set: the last 16 cases are written here before each run (crash localisation)
+	recent  []Case
 }
 
 func cloneDecls(ds []*Decl) []*Decl {
@@ -104,6 +107,14 @@ type outcome struct {
 // Coq case.  forceOracle evaluates the oracle even outside the guards (corpus cases).
 func (h *H) runCase(c *Case, toCoq, forceOracle bool) *outcome {
 	out := &outcome{}
+	if h.trace != "" {
+		h.recent = append(h.recent, *c)
+		if len(h.recent) > 16 {
+			h.recent = h.recent[len(h.recent)-16:]
+		}
+		b, _ := json.Marshal(h.recent)
+		_ = os.WriteFile(h.trace, b, 0o644)
+	}
 	h.ran[c.Driver]++
 	rawDecls := c.Decls
 	if c.Driver == "edi" {
@@ -247,6 +258,17 @@ func (h *H) replay(file string) {
 	}
 	var c Case
 	if err = json.Unmarshal(b, &body); err == nil {
+		var sq struct {
+			Sequence []Case `json:"sequence"`
+		}
+		if json.Unmarshal(body.Case, &sq) == nil && len(sq.Sequence) > 0 {
+			fmt.Printf("replay of a sequence of %d inputs read in one process (a process crash reproduces as a crash)\n", len(sq.Sequence))
+			for i := range sq.Sequence {
+				out := h.runCase(&sq.Sequence[i], false, true)
+				fmt.Printf("  #%d driver=%s word=%s oracle=%q\n", i+1, sq.Sequence[i].Driver, wordStr(sq.Sequence[i].Units), out.oracle)
+			}
+			return
+		}
 		err = json.Unmarshal(body.Case, &c)
 	}
 	if err != nil || c.Driver == "" {
@@ -274,10 +296,72 @@ func (h *H) replay(file string) {
 
 // ---- main ---------------------------------------------------------------------------------------------------
 
+// supervise runs the harness in a child process, so that a fatal runtime error of the
+// implementation (stack overflow, concurrent map write: not recoverable) still ends in a concrete
+// replay: the child is run again with tracing and the last case it started is reported.
+func supervise(o *vh.Opts) {
+	run := func(trace string) error {
+		cmd := exec.Command(os.Args[0], os.Args[1:]...)
+		cmd.Env = append(os.Environ(), "C05_WORKER=1", "C05_TRACE="+trace)
+		cmd.Stdout = os.Stdout
+		cmd.Stderr = nil
+		return cmd.Run()
+	}
+	if err := run(""); err == nil {
+		return
+	}
+	trace := filepath.Join(o.Out, "trace_cases.json")
+	err := run(trace)
+	if err == nil {
+		return // not reproducible: the second run completed and wrote its summary
+	}
+	sum := vh.NewSummary("C05", o, "run aborted by a fatal runtime error of the implementation")
+	var recent []Case
+	if b, e := os.ReadFile(trace); e == nil && json.Unmarshal(b, &recent) == nil && len(recent) > 0 {
+		// shortest suffix of the last cases that crashes a fresh process
+		seq := recent[len(recent)-1:]
+		for k := 1; k <= len(recent); k *= 2 {
+			cand := recent[len(recent)-k:]
+			b, _ := json.Marshal(cand)
+			f := filepath.Join(o.Out, "seq_cases.json")
+			_ = os.WriteFile(f, b, 0o644)
+			cmd := exec.Command(os.Args[0], os.Args[1:]...)
+			cmd.Env = append(os.Environ(), "C05_WORKER=1", "C05_SEQ="+f)
+			if cmd.Run() != nil {
+				seq = cand
+				break
+			}
+		}
+		last := seq[len(seq)-1]
+		fmt.Printf("the implementation crashed the process; shortest crashing sequence has %d case(s), last: driver=%s word=%s\n", len(seq), last.Driver, wordStr(last.Units))
+		sum.Fail("fatal runtime error (process crash) inside the implementation when these inputs are read one after the other in one process", map[string]interface{}{"process_crash": true, "sequence": seq}, err.Error())
+	} else {
+		sum.Fail("fatal runtime error (process crash) of the harness before any case ran", map[string]string{"error": err.Error()}, nil)
+	}
+	sum.Evaluations = 1
+	sum.Write(o)
+}
+
 func main() {
 	o := vh.ParseOpts()
+	if os.Getenv("C05_WORKER") == "" {
+		supervise(o)
+		return
+	}
 	r := vh.NewRng(o.Seed)
-	h := &H{o: o, ran: map[string]int{}}
+	h := &H{o: o, ran: map[string]int{}, trace: os.Getenv("C05_TRACE")}
+	if f := os.Getenv("C05_SEQ"); f != "" {
+		// crash localisation: run just these cases, in order
+		var seq []Case
+		b, _ := os.ReadFile(f)
+		_ = json.Unmarshal(b, &seq)
+		h.sum = vh.NewSummary("C05", o, "")
+		h.cw = vh.NewCaseWriter(o, "C05seq", "Model.Hier Model.HierSpec", "c05case", "check_case")
+		for i := range seq {
+			h.runCase(&seq[i], false, true)
+		}
+		return
+	}
 	h.sum = vh.NewSummary("C05", o,
 		"(implementation, declaration hierarchy, unit word) triples; non-trivial = the word drives at least one pop of the stack (an occurrence loop of some declaration completes and a sibling/parent continues) or a delivery; distinct by (driver, declarations, word)")
 	h.cw = vh.NewCaseWriter(o, "C05", "Model.Hier Model.HierSpec", "c05case", "check_case")
